@@ -21,6 +21,18 @@ DOMAINS = {
     'pat': ['a', '^a.*', '(', '[b-', 'b|c'],
     'bool': [True, False],
 }
+# thorough tier: the same enumeration over wider domains (type minimum, more ties and denormals, astral / combining / cased non-ASCII characters)
+EXTRA = {
+    'int': [-9223372036854775808, 63, 255, -2147483649],
+    'dbl': [-INF, 2.5, -2.5, 5e-324, 4503599627370495.5],
+    'str': ['😀', 'e\u0301', 'aa', 'ÀÉ', '\t'],
+    'date': [D(1969, 12, 31), D(2021, 1, 3), D(1900, 3, 1)],
+    'ts': [DT(1900, 1, 1, 0, 0, 0, 1000)],
+    'small': [3, -2147483648],
+    'pat': ['.', 'é+'],
+}
+WIDE = False      # set per process by run() / _work()
+
 COLTYPE = {'int': 'int64', 'small': 'int64', 'dbl': 'float64', 'str': 'utf8', 'pat': 'utf8', 'date': 'date32', 'ts': 'ts_us', 'bool': 'bool'}
 SQLTYPE = {'int': 'BIGINT', 'small': 'BIGINT', 'dbl': 'DOUBLE', 'str': 'VARCHAR', 'pat': 'VARCHAR', 'date': 'DATE', 'ts': 'TIMESTAMP', 'bool': 'BOOLEAN'}
 EPOCH = DT(1970, 1, 1)
@@ -30,7 +42,7 @@ def dom_of(a):
     """(type name, values incl. NULL first)"""
     if isinstance(a, FR.Dom):
         return a.typ, [None] + list(a.values)
-    return a, [None] + DOMAINS[a]
+    return a, [None] + DOMAINS[a] + (EXTRA.get(a, []) if WIDE else [])
 
 
 def tuples_of(spec):
@@ -82,6 +94,8 @@ def lit(v, typ, bare_null=False):
         return "CAST('%s' AS TIMESTAMP)" % v.strftime('%Y-%m-%d %H:%M:%S.%f')[:-3]
     if isinstance(v, str):
         return "'" + v.replace("'", "''") + "'"
+    if v == -9223372036854775808:
+        return '(-9223372036854775807 - 1)'
     return str(v)
 
 
@@ -410,7 +424,8 @@ def judge(spec, args, eng):
 
 
 def _work(task):
-    key, mode, lo, hi, step = task
+    global WIDE
+    key, mode, lo, hi, step, WIDE = task
     out = {'key': key, 'mode': mode, 'n': 0, 'stmts': 0, 'agree': 0, 'agree_error': 0, 'unspecified': 0, 'engine_errors': 0, 'panics': 0, 'expect_value': 0, 'numtype': 0,
            'differ': [], 'nontrivial': set(), 'samples': [], 'errors': [], 'errmsg': None}
     try:
@@ -470,43 +485,40 @@ def case_of(rec):
 
 
 def run(rep):
+    global WIDE
     quick = rep.tier == 'quick'
-    lit_step = 4 if quick else 1
+    WIDE = not quick
     tasks = []
     total = {}
     for key, spec in FR.FUNCS.items():
         types, tuples = tuples_of(spec)
         n = len(tuples)
         total[key] = n
-        chunk = 400
-        for lo in range(0, n, chunk):
-            tasks.append((key, 'col', lo, min(n, lo + chunk), 1))
+        tasks.append((key, 'col', 0, n, 1, WIDE))       # one table / one statement per signature: the first row is always the all-NULL tuple
         if len(types) >= 2:
-            tasks.append((key, 'mix', 0, n, 1))
+            tasks.append((key, 'mix', 0, n, 1, WIDE))
         if spec.literal_ok:
-            # quick tier: every lit_step-th tuple, offset by the seed so that repeated runs sweep the whole product
-            off = (rep.seed % lit_step) if lit_step > 1 else 0
-            lchunk = 300 * lit_step
-            for lo in range(0, n, lchunk):
-                tasks.append((key, 'lit', lo + off, min(n, lo + lchunk), lit_step))
+            for lo in range(0, n, 300):
+                tasks.append((key, 'lit', lo, min(n, lo + 300), 1, WIDE))
                 if len(types) >= 1:
-                    tasks.append((key, 'litnull', lo + off, min(n, lo + lchunk), lit_step))
-    # longest first
-    tasks.sort(key=lambda t: -((t[3] - t[2]) // t[4]) * (3 if t[1] in ('lit', 'litnull') else 1))
+                    tasks.append((key, 'litnull', lo, min(n, lo + 300), 1, WIDE))
+    tasks.sort(key=lambda t: -(t[3] - t[2]) * (3 if t[1] in ('lit', 'litnull') else 1))       # longest first
     funcs = sorted(set(s.func for s in FR.FUNCS.values()))
+
+    def dom(t):
+        return dom_of(t)[1][1:]
     rep.rule = ('%d SQL functions / %d signatures (vlib/funcref.py); for each signature EVERY tuple of the cartesian product of its argument domains '
                 '(NULL + BIGINT %s; DOUBLE %s; VARCHAR %s; DATE %s; TIMESTAMP %s; small ints %s; regex patterns %s; booleans; or the explicit per-argument value lists of funcref.Dom for '
-                'positions, radixes, hex/base64/URL/JSON texts, shifts), %d tuples in total, each evaluated (a) with all arguments as columns of a memory table holding one row per tuple, '
-                '(b) with one argument as a column and the others as literals (constant-argument fast paths), (c) with all arguments as literals (constant folding) - %s - '
-                'and (d) as (c) with a bare untyped NULL for the NULL arguments; oracle: the Python reference of the Trino documentation: exact for integers/strings/booleans/dates/timestamps/bytes/arrays, '
+                'positions, radixes, hex/base64/URL/JSON texts, shifts, units as part of the SQL template)%s, %d tuples in total, each evaluated (a) with all arguments as columns of a memory table holding one row per tuple '
+                '(one statement per signature; one statement per row if that statement fails), (b) with one argument as a column and the others as literals (constant-argument fast paths), '
+                '(c) with all arguments as literals, NULL as CAST(NULL AS type) (constant folding) and (d) as (c) with a bare untyped NULL for the NULL arguments - no sampling in either tier; '
+                'oracle: the Python reference of the Trino documentation: exact for integers/strings/booleans/dates/timestamps/bytes/arrays, '
                 'relative 1e-12 for doubles (NaN = NaN, the sign of zero ignored, an integer-valued double accepted for a documented integer and counted), NULL exactly; an engine error is accepted only where the '
-                'documentation prescribes an error; a VARCHAR argument stands for its UTF-8 bytes where Trino takes VARBINARY, and hash functions may return lower-case hex text for VARBINARY; '
-                'a signature/mode in which EVERY call is refused with an explicit error is reported as unsupported (extra.refused_signatures), not as a wrong value'
-                % (len(funcs), len(FR.FUNCS), DOMAINS['int'], [frepr(x) for x in DOMAINS['dbl']], DOMAINS['str'], [x.isoformat() for x in DOMAINS['date']], [x.isoformat() for x in DOMAINS['ts']],
-                   DOMAINS['small'], DOMAINS['pat'], sum(total.values()),
-                   ('every %d-th tuple (offset seed mod %d) in the quick tier' % (lit_step, lit_step)) if quick else 'all tuples'))
-    if quick:
-        rep.exhaustive = True    # modes (a) and (b) are exhaustive; (c)/(d) subsample as stated in the rule
+                'documentation prescribes an error, a panic never; tuples the documentation does not pin down are skipped and counted (unspecified_skipped); a VARCHAR argument stands for its UTF-8 bytes where Trino '
+                'takes VARBINARY, hash functions may return lower-case hex text (xxhash64: a BIGINT) for VARBINARY; a signature/mode in which EVERY call is refused with an explicit error is reported as unsupported '
+                '(extra.refused_signatures), not as a wrong value'
+                % (len(funcs), len(FR.FUNCS), dom('int'), [frepr(x) for x in dom('dbl')], dom('str'), [x.isoformat() for x in dom('date')], [x.isoformat() for x in dom('ts')],
+                   dom('small'), dom('pat'), ' [thorough tier: the wider type domains of EXTRA]' if WIDE else '', sum(total.values())))
     agg = {}      # (key, mode) -> counters
     differ = []
     with mp.Pool(min(14, os.cpu_count() or 4), initializer=sqldiff._init) as pool:
@@ -543,11 +555,12 @@ def run(rep):
             refused[(key, mode)] = a['errmsg']
     vio_kept = {}
     cand_counts = {}
+    cand_funcs = {}
     dropped = 0
     for rec in differ:
         key, mode = rec['key'], rec['mode']
         p = per[rec['func']]
-        if (key, mode) in refused:
+        if (key, mode) in refused or (mode == 'litnull' and (key, 'lit') in refused):
             p['refused_signature'] += 1
             rep.count('refused_signature')
             continue
@@ -558,6 +571,8 @@ def run(rep):
         if fid is not None:
             rep.count('candidate:' + fid)
             cand_counts[fid] = cand_counts.get(fid, 0) + 1
+            bf = cand_funcs.setdefault(fid, {})
+            bf[rec['func']] = bf.get(rec['func'], 0) + 1
             p['candidate'] += 1
             if fid in known:
                 rep.known_hit(fid, {'sql': rec['sql'], 'mode': mode, 'engine': rec['eng'], 'documented': rec['ref']})
@@ -566,6 +581,7 @@ def run(rep):
             k = 'cand:' + fid
         else:
             k = key
+            rep.count('unclassified_disagreement')
         rep.count('violation')
         p['violations'] += 1
         vio_kept[k] = vio_kept.get(k, 0) + 1
@@ -580,7 +596,7 @@ def run(rep):
     rep.extra['per_function'] = per
     rep.extra['uncovered'] = [{'functions': k, 'reason': v} for k, v in FR.UNCOVERED.items()]
     rep.extra['refused_signatures'] = {'%s [%s]' % km: msg for km, msg in sorted(refused.items())}
-    rep.extra['candidate_findings'] = {fid: dict(CANDIDATE_FINDINGS[fid], hits=cand_counts.get(fid, 0), listed=(fid in known)) for fid in CANDIDATE_FINDINGS}
+    rep.extra['candidate_findings'] = {fid: dict(CANDIDATE_FINDINGS[fid], hits=cand_counts.get(fid, 0), by_function=cand_funcs.get(fid, {}), listed=(fid in known)) for fid in CANDIDATE_FINDINGS}
     rep.extra['functions_covered'] = len(funcs)
     rep.extra['signatures_covered'] = len(FR.FUNCS)
     rep.extra['notes'] = {k: s.note for k, s in FR.FUNCS.items() if s.note}
@@ -652,6 +668,12 @@ def _u8len(s):
 
 
 # ---- math -------------------------------------------------------------------------------------------------------------------
+
+@finding('abs_min_bigint_panics', 'ABS', 'ABS of the smallest BIGINT panics (attempt to negate with overflow) instead of raising an out-of-range error', 'SELECT ABS(c) for c = -9223372036854775808 panicked; Trino raises NUMERIC_VALUE_OUT_OF_RANGE',
+         'ABS/int, x = -2^63, panic "negate with overflow" (thorough tier domain)')
+def _f_abs_min(c):
+    return c['key'] == 'ABS/int' and c['args'][0] == -(1 << 63) and _is_panic(c) and 'negate with overflow' in _msg(c)
+
 
 @finding('round_integer_negative_decimals_ignored', 'ROUND', 'ROUND(bigint, d) with negative d returns the integer unchanged instead of rounding to tens/hundreds',
          'SELECT ROUND(7, -1) returned 7, Trino documents 10 (x rounded to d decimal places, d may be negative)', 'ROUND/int,small, d < 0, engine value == x')
@@ -1045,7 +1067,15 @@ def _regexp_extract0(s, p):
         return _NOVAL
 
 
+def _wb_count0(a):
+    x, lo, hi = a[0], a[1], a[2]
+    if lo is None or hi is None or x != x:
+        return _NOVAL
+    return 0 if x < lo else 1       # bucket count read from the NULL first row = 0
+
+
 _ROW0 = {
+    'WIDTH_BUCKET': _wb_count0,
     'ROUND/dbl,small': lambda a: FR._round_half_away(a[0], 0),
     'LPAD': lambda a: a[0][:max(a[1], 0)] if a[1] is not None else _NOVAL,
     'RPAD': lambda a: a[0][:max(a[1], 0)] if a[1] is not None else _NOVAL,
@@ -1053,7 +1083,7 @@ _ROW0 = {
 }
 
 
-@finding('parameter_read_from_first_row', 'ROUND, LPAD, RPAD, REGEXP_EXTRACT (also TO_BASE, FROM_BASE, WIDTH_BUCKET, see their findings)', 'a parameter argument given as a column is read from the FIRST row of the batch only '
+@finding('parameter_read_from_first_row', 'ROUND, LPAD, RPAD, REGEXP_EXTRACT, WIDTH_BUCKET (also TO_BASE, FROM_BASE, see their findings)', 'a parameter argument given as a column is read from the FIRST row of the batch only '
          '(`value(0)` / `get_int_value(arr, 0)`) and applied to every row: decimals of ROUND, pad string of LPAD/RPAD, group of REGEXP_EXTRACT, radix of TO_BASE/FROM_BASE, bucket count of WIDTH_BUCKET',
          "table u(x, d) = [(NULL, NULL), (0.5, 1)]: SELECT ROUND(x, d) FROM u returned 1.0 for the second row, Trino documents 0.5", 'column mode, function in the table, non-NULL main argument, engine value == the result under the first row\'s (NULL -> default) parameter')
 def _f_row0(c):
@@ -1065,9 +1095,12 @@ def _f_row0(c):
 
 
 # ---- cross-cutting families, restricted to the functions in which they were observed ---------------------------------------------
-NULL_NOT_PROPAGATED = {'CONCAT', 'SUBSTR', 'SUBSTRING', 'LPAD', 'RPAD', 'LEFT', 'RIGHT', 'REPEAT', 'SPLIT_PART', 'ROUND', 'TRUNCATE', 'TRUNC', 'TO_BASE', 'WIDTH_BUCKET', 'GREATEST', 'LEAST'}
-INVALID_RETURNS_NULL = set()
-MISSING_VALIDATION = set()
+NULL_NOT_PROPAGATED = {'CONCAT', 'SUBSTR', 'SUBSTRING', 'LPAD', 'RPAD', 'LEFT', 'RIGHT', 'REPEAT', 'SPLIT_PART', 'ROUND', 'TRUNCATE', 'TRUNC', 'TO_BASE', 'FROM_BASE', 'WIDTH_BUCKET', 'GREATEST', 'LEAST',
+                       'BIT_COUNT', 'DATE_ADD', 'IS_FINITE', 'IS_INFINITE', 'IS_NAN', 'JSON_ARRAY_CONTAINS', 'JSON_SIZE', 'REGEXP_EXTRACT', 'REGEXP_POSITION'}
+INVALID_RETURNS_NULL = {'CHR', 'CODEPOINT', 'FROM_BASE', 'FROM_BASE32', 'FROM_BASE64', 'FROM_BASE64URL', 'FROM_HEX', 'FROM_ISO8601_DATE', 'HAMMING_DISTANCE', 'JSON_EXTRACT_SCALAR', 'JSON_SIZE', 'NORMAL_CDF',
+                        'REGEXP_EXTRACT', 'REGEXP_EXTRACT_ALL', 'REGEXP_POSITION'}
+MISSING_VALIDATION = {'CODEPOINT', 'FROM_ISO8601_DATE', 'JSON_EXTRACT_SCALAR', 'JSON_SIZE', 'LPAD', 'RPAD', 'REGEXP_COUNT', 'REGEXP_LIKE', 'REGEXP_POSITION', 'REGEXP_REPLACE', 'REGEXP_SPLIT', 'SPLIT', 'SPLIT_PART',
+                      'URL_DECODE', 'WIDTH_BUCKET', 'TO_BASE', 'BIT_COUNT', 'ROUND'}
 
 
 @finding('null_argument_not_propagated', ', '.join(sorted(NULL_NOT_PROPAGATED)), 'a NULL argument does not make the result NULL: the NULL is treated as an empty string / zero / the default (CONCAT, SUBSTR of a NULL string, NULL sizes, counts and '
@@ -1075,3 +1108,24 @@ MISSING_VALIDATION = set()
          'function in the list, some argument NULL, documented NULL, engine returns a non-NULL value')
 def _f_null_not_prop(c):
     return c['func'] in NULL_NOT_PROPAGATED and (_doc_null_by_propagation(c) or (c['func'] in ('GREATEST', 'LEAST') and _null_in(c) and c['ref'] == ('val', None))) and c['eng'][0] == 'val' and c['eng'][1] is not None
+
+
+@finding('invalid_argument_returns_null', ', '.join(sorted(INVALID_RETURNS_NULL)), 'an argument outside the documented domain (invalid regular expression, invalid hex/base64/base-N text, invalid code point, invalid JSON path, '
+         'invalid date text, strings of different length, non-positive standard deviation) yields NULL instead of the error Trino raises', "SELECT FROM_HEX('zz') returned NULL, Trino raises an error; REGEXP_EXTRACT('a', '(') returned NULL",
+         'function in the list, documented error, engine returns NULL')
+def _f_invalid_null(c):
+    return c['func'] in INVALID_RETURNS_NULL and c['ref'] == ('error',) and c['eng'] == ('val', None)
+
+
+@finding('missing_argument_validation', ', '.join(sorted(MISSING_VALIDATION)), 'an argument outside the documented domain is not rejected and some value is computed: invalid regular expression treated as "no match", '
+         'index/size/limit <= 0, empty pad string or delimiter, multi-character CODEPOINT argument, malformed escapes, invalid JSON path, invalid radix / bits / bucket count',
+         "SELECT CODEPOINT('Ab c') returned 65, REGEXP_LIKE('a', '(') returned false, SPLIT_PART('a', ',', 0) returned '': Trino raises an error for each", 'function in the list, documented error, engine returns a non-NULL value')
+def _f_invalid_value(c):
+    return c['func'] in MISSING_VALIDATION and c['ref'] == ('error',) and c['eng'][0] == 'val' and c['eng'][1] is not None
+
+
+@finding('untyped_null_literal_rejected', '(every function that checks its argument types at run time)', 'a bare NULL literal argument is not coerced to the parameter type: the call fails with a type error instead of returning the documented '
+         'value (NULL for ordinary functions, the other argument for COALESCE / IF ...)', "SELECT UPPER(NULL) fails with 'Type error: UPPER requires string argument'; Trino returns NULL (SELECT UPPER(CAST(NULL AS VARCHAR)) works)",
+         'literal mode with a bare NULL, engine raises an explicit type / coercion error')
+def _f_untyped_null(c):
+    return c['mode'] == 'litnull' and _is_err(c) and re.search(r'Type error|same data type|Invalid arithmetic operation|ot implemented', _msg(c)) is not None
